@@ -18,6 +18,10 @@ SELFTEST_MAP = {
     "swap_insert_before_set_child.patch": ["C01", "C03", "C08"],
     "swap_remove_before_release.patch": ["C05", "C08"],
     "swap_checked_insert.patch": ["C03", "C08"],
+    "skip_zbdd_dontcare.patch": ["C08", "C09"],
+    "cache_ignores_add_vars.patch": ["C06"],
+    "count_delta_dropped.patch": ["C05"],
+    "count_not_undone_on_oom.patch": ["C14"],
 }
 
 
